@@ -593,7 +593,12 @@ func c05Case(w *core.Worker, i int) {
 					t.Rows = append(t.Rows, nr)
 					appended++
 				}
-				vals = append(vals, fmt.Sprintf("('%s', %s)", id, core.SQLStr(v)))
+				keySQL := fmt.Sprintf("'%s'", id)
+				if _, e := strconv.Atoi(id); hit && e == nil && r.P(35) {
+					// the key of an existing row given as a number of the other kind: 2.0 and 2e0 are the key 2
+					keySQL = id + []string{".0", "e0", ".00"}[r.Intn(3)]
+				}
+				vals = append(vals, fmt.Sprintf("(%s, %s)", keySQL, core.SQLStr(v)))
 			}
 			if len(vals) == 0 {
 				continue
